@@ -434,7 +434,7 @@ def short(x, n=240):
 
 
 def run_nrt(rep):
-    n = 300 if rep.tier == 'thorough' else 60
+    n = 1500 if rep.tier == 'thorough' else 200
     fails = []
     distinct = set()
     sends = refused = 0
@@ -664,14 +664,16 @@ def rt_child(spec):
                     % (now, sent[0], r, phys_tt), prog, short(pkt, 400), short(sent, 400))
                 return
             # independent of sc3's own conversion: NTP seconds since 1900
+            lats = [l for l in latencies_of(sent) if l is not None and l >= 0]
             for path, t in timetags_of(pkt):
                 counts['timetags_checked'] += 1
                 if t == 1:
                     continue
                 secs = t / TWO32 - NTP_1970 - main._init_time - now
-                if not (-1e-4 <= secs <= 1.0 + 0.2 + 1e-4):
-                    bad('C07.rt:ntp-epoch', 'time tag %d at %r is %g s from the logical send instant'
-                        % (t, path, secs), prog, secs, 'a latency from the program')
+                if not any(abs(secs - l) <= 1e-4 for l in lats):
+                    bad('C07.rt:ntp-epoch', 'time tag %d at %r is %g s after the logical send instant '
+                        '(NTP epoch 1900), which is none of the latencies %r'
+                        % (t, path, secs, sorted(set(lats))), prog, secs, sorted(set(lats)))
                     return
         else:
             counts['outside_bundles'] += 1
@@ -732,7 +734,9 @@ def rt_child(spec):
     def run_program(prog):
         bld = Builder()
         log = []
-        lock = threading.Lock()
+        # the library's own (re-entrant) lock: clock threads hold it while a
+        # routine runs, so taking it here cannot invert any lock order
+        lock = main._main_lock
 
         def do_send(step, now):
             with lock:
@@ -880,7 +884,7 @@ RT_FIXED = {
 
 
 def start_rt(rep):
-    nchild, nprog = (8, 8) if rep.tier == 'thorough' else (4, 4)
+    nchild, nprog = (12, 12) if rep.tier == 'thorough' else (6, 5)
     specs = []
     for i in range(nchild):
         progs = [RT_FIXED] if i == 0 else []
